@@ -5,7 +5,7 @@ git -C /repo worktree add --detach /tmp/ck HEAD -q || exit 9
 cd /tmp/ck; export CARGO_NET_OFFLINE=true
 cargo check --offline --workspace 2>&1 | tail -1
 rc=0
-for d in /verif/seeded /verif/seeded2 /verif/seeded3 /verif/seeded4 /verif/seeded5 /verif/refactors; do
+for d in /verif/seeded /verif/seeded2 /verif/seeded3 /verif/seeded4 /verif/seeded5 /verif/seeded6 /verif/refactors; do
   for id in $(ls $d | grep "^C[0-9][0-9]"); do
     git checkout -q -- .
     git apply $d/$id/patch.diff 2>/dev/null || { echo "$d/$id: does not apply"; continue; }
